@@ -140,6 +140,25 @@ def run(ctx: Ctx) -> None:
                         ctx.violation(f"C01:{op}:lowp-value", "low-precision result is not the same scalar multiple", dkey,
                                       float(d) / scale)
 
+    # ---- cross_entropy with class-probability targets (float target of the logits' shape): the loss is PyTorch's, exactly
+    for shape in ((5, 7), (7,), (3, 2), (6, 11)):
+        for red in ("mean", "sum"):
+            for dt_ in (torch.float64, torch.float32):
+                for mult in (1.0, 0.5):
+                    key = {"op": "cross_entropy", "target": "class probabilities", "shape": list(shape), "reduction": red,
+                           "dtype": str(dt_), "mult": mult}
+                    ctx.count(key, bucket="cross_entropy/prob-target")
+                    gen_ = torch.Generator().manual_seed(sum(shape) + (red == "sum"))
+                    x_ = torch.randn(shape, generator=gen_, dtype=torch.float64).to(dt_)
+                    p_ = torch.softmax(torch.randn(shape, generator=gen_, dtype=torch.float64), -1).to(dt_)
+                    with ctx.guard("C01:cross_entropy:prob-target", key):
+                        a_ = U.cross_entropy(x_, p_, reduction=red, mult=mult)
+                        b_ = torch.nn.functional.cross_entropy(x_ * mult, p_, reduction=red)
+                        if a_.shape != b_.shape or a_.dtype != b_.dtype or \
+                                not torch.allclose(a_, b_, rtol=1e-12 if dt_ == torch.float64 else 1e-5, atol=0):
+                            ctx.violation("C01:cross_entropy:prob-target", "loss with class-probability targets differs from "
+                                          "PyTorch's", key, {"got": float(a_), "want": float(b_)})
+
     # ---- unsupported arguments
     vreqs: List[Any] = []
     vcases: List[Any] = []
